@@ -21,11 +21,11 @@ import (
 
 type HarnessCfg struct {
 	Name     string   `json:"name"`
-	Solver   string   `json:"solver,omitempty"`   // default z3
-	Native   bool     `json:"native"`             // counterexamples and sampled paths are replayed natively
-	Reach    []string `json:"reach,omitempty"`    // labels that some path must reach (default: end)
-	Tier     int      `json:"tier,omitempty"`     // 1: thorough tier only
-	Workers  int      `json:"workers,omitempty"`  // default 16
+	Solver   string   `json:"solver,omitempty"`  // default z3
+	Native   bool     `json:"native"`            // counterexamples and sampled paths are replayed natively
+	Reach    []string `json:"reach,omitempty"`   // labels that some path must reach (default: end)
+	Tier     int      `json:"tier,omitempty"`    // 1: thorough tier only
+	Workers  int      `json:"workers,omitempty"` // default 16
 	Timeout  int      `json:"timeout_ms,omitempty"`
 	MaxSecs  int      `json:"max_secs,omitempty"` // wall-clock budget; exceeding it is INCONCLUSIVE
 	Reverse  bool     `json:"reverse_maps,omitempty"`
@@ -213,8 +213,8 @@ func cmdCheck(args []string) int {
 	inconclusive := func(why string) int {
 		fmt.Printf("INCONCLUSIVE property=%s %s\n", prop, why)
 		ev := evidence{PropertyID: prop, Tier: *tierS, Seed: seed, Level: "other",
-			Coverage:  map[string]interface{}{"explanation": "check was INCONCLUSIVE: " + why, "evaluations": 0, "distinct_nontrivial": 0},
-			WallS:     time.Since(t0).Seconds(),
+			Coverage: map[string]interface{}{"explanation": "check was INCONCLUSIVE: " + why, "evaluations": 0, "distinct_nontrivial": 0},
+			WallS:    time.Since(t0).Seconds(),
 		}
 		b, _ := json.MarshalIndent(ev, "", " ")
 		os.WriteFile(evPath, b, 0o644)
@@ -289,9 +289,14 @@ func cmdCheck(args []string) int {
 		}
 		x := &exec.Explorer{P: p, Harness: fn, NWorker: nw, Solver: solver, Timeout: to, Tier: tier, Seed: seed,
 			KFOpen: kfOpen, Reverse: h.Reverse, NCases: 2, MaxStep: h.MaxSteps, Progress: os.Getenv("VERIF_PROGRESS") != ""}
-		if h.MaxSecs > 0 {
-			x.Deadline = time.Now().Add(time.Duration(h.MaxSecs) * time.Second)
+		budget := h.MaxSecs
+		if budget == 0 {
+			budget = 900 // quick: nothing may run away (a changed tree can blow a harness up)
+			if tier == 1 {
+				budget = 3 * 3600
+			}
 		}
+		x.Deadline = time.Now().Add(time.Duration(budget) * time.Second)
 		t1 := time.Now()
 		st, err := x.Run()
 		if err != nil {
@@ -420,7 +425,7 @@ func cmdCheck(args []string) int {
 		b, _ := json.MarshalIndent(rf, "", " ")
 		os.WriteFile(path, b, 0o644)
 		pd := pending{path: path, rf: rf, kf: hv.v.KF, natIdx: -1}
-		if hv.h.Native && !strings.HasPrefix(hv.v.Label, "blocked:") && hv.v.Label != "lockset" {
+		if hv.h.Native && !engineOnlyLabel(hv.v.Label) {
 			pd.natIdx = len(natCases)
 			natCases = append(natCases, nativeCase{Harness: hv.h.Name, Tier: tier, Inputs: hv.v.Inputs})
 		}
@@ -551,6 +556,12 @@ func cmdCheck(args []string) int {
 			prop, *tierS, states, obligations, discharged, queries, validated, time.Since(t0).Seconds())
 	}
 	return exit
+}
+
+// engineOnlyLabel: assertions about engine-side monitors (lockset, critical sections,
+// blocking) have no native counterpart; their counterexamples are replayed in the engine.
+func engineOnlyLabel(l string) bool {
+	return l == "lockset" || strings.HasPrefix(l, "blocked:") || strings.Contains(l, "critical-section")
 }
 
 func labelSet(st *exec.Stats) string {
